@@ -32,7 +32,7 @@ def _one(us: str, max_units: int, export_upto: int, name: str, workers: int):
     return us, res, gens
 
 
-def unit_texts(tier: str, name: str, sets=UNIT_SETS, deep: bool = False) -> Tuple[List[Dict[str, Any]], List[Tuple[str, Any]]]:
+def unit_texts(tier: str, name: str, sets=UNIT_SETS, deep: bool = False, more=None) -> Tuple[List[Dict[str, Any]], List[Tuple[str, Any]]]:
     """All exported texts of MC_Parser for the given tier: (gens, [(label, TlcResult)]).  Every text of up to
     export_upto units is exported, longer ones unless the implementation-shaped model plainly says "syntax"."""
     if tier == "quick":
@@ -41,7 +41,9 @@ def unit_texts(tier: str, name: str, sets=UNIT_SETS, deep: bool = False) -> Tupl
         max_units, export_upto = (5, 3)
     workers = max(2, core.NCPU // len(sets))
     with ThreadPoolExecutor(len(sets)) as ex:
-        futs = [ex.submit(_one, us, max_units, export_upto, name, workers) for us in sets]
+        more = more or {}
+        futs = [ex.submit(_one, us, max(max_units, more.get(us, 0)), max(export_upto, more.get(us, 0)) if tier == "quick" else export_upto,
+                          name, workers) for us in sets]
         done = [f.result() for f in futs]
     gens: List[Dict[str, Any]] = []
     runs = []
